@@ -924,6 +924,8 @@ peg::parser! {
             heredoc_literal_text()
 
         rule heredoc_escape_sequence() -> WordPiece =
+            // `\<newline>` is a line continuation: both characters are removed.
+            "\\\n" { WordPiece::Text(String::new()) } /
             s:$("\\" ['$' | '`' | '\\']) { WordPiece::EscapeSequence(s.to_owned()) }
 
         rule heredoc_literal_text() -> WordPiece =
